@@ -133,7 +133,45 @@ var writerPool = map[int]io.Writer{}
 // or a pipe is): one end of a SOCK_SEQPACKET socket pair, so that every write(2) is seen as one event
 const fileWriterBase = 41
 
+// writer ids from fwWriterBase on are the library's own file destinations: slog.NewFileWriter(path) on a
+// scratch file whose exported File field is then re-pointed at one end of a SOCK_SEQPACKET pair (what a
+// rotating application does with a reopened file), so that every write(2) is seen as one event
+const fwWriterBase = 45
+
+var fwGen int
+
+func newFwWriter(id int) io.Writer {
+	fwGen++
+	path := fmt.Sprintf("fw-%d-%d.log", id, fwGen)
+	fw := slog.NewFileWriter(path)
+	fw.File.Close()
+	os.Remove(path)
+	fw.File = newFileWriter(id)
+	return fw
+}
+
+// resetFileWriters forgets every file destination (a closed file stays closed): the next use of the id
+// makes a fresh one
+func resetFileWriters() {
+	for _, id := range fileIds {
+		if f, ok := writerPool[id].(*os.File); ok {
+			f.Close()
+		} else if c, ok := writerPool[id].(io.Closer); ok {
+			c.Close()
+		}
+		if f := fileOf[id]; f != nil {
+			f.Close()
+		}
+		delete(fileOf, id)
+		syscall.Close(fileSocks[id])
+		delete(writerPool, id)
+		delete(fileSocks, id)
+	}
+	fileIds = nil
+}
+
 var fileSocks = map[int]int{} // writer id -> reading end
+var fileOf = map[int]*os.File{} // writer id -> writing end
 var fileIds []int
 
 func newFileWriter(id int) *os.File {
@@ -148,11 +186,16 @@ func newFileWriter(id int) *os.File {
 	}
 	fileSocks[id] = fds[1]
 	fileIds = append(fileIds, id)
-	return os.NewFile(uintptr(fds[0]), fmt.Sprintf("logfile-%d", id))
+	f := os.NewFile(uintptr(fds[0]), fmt.Sprintf("logfile-%d", id))
+	fileOf[id] = f
+	return f
 }
 
 // writer id -> kind: 1 plain, 2 LogWriter, 3 LevelSettable LogWriter, 4 plain+LevelSettable, then repeating
 func writerKind(id int) string {
+	if id >= fwWriterBase {
+		return "fw"
+	}
 	if id >= fileWriterBase {
 		return "file"
 	}
@@ -181,6 +224,8 @@ func getWriter(id int) io.Writer {
 		w = &closerW{id}
 	} else {
 		switch writerKind(id) {
+		case "fw":
+			w = newFwWriter(id)
 		case "file":
 			w = newFileWriter(id)
 		case "plain":
